@@ -8,7 +8,7 @@ BOUNDED = "bounded stand-in (never counted as proved): "
 
 M = {}
 
-M["C01"] = dict(level="exploration", design_ref="5/C01",
+M["C01"] = dict(level="other", design_ref="5/C01",
     technique="bounded run of the write->read contract on the real code (pairwise-covering option product, both engines, exact rational half-ulp oracle); no deductive core yet for the float text round trip",
     level_text="Bounded: real LASFile.write -> lasio.read over curve counts 1..40 x rows x 16 writer-option axes (pairwise covered) x both engines, values over the whole magnitude ladder with NaN placements; "
                "oracle = the input itself with a half-unit-of-last-digit tolerance computed exactly. The float<->text steps (fmt % x, float(token), genfromtxt, textwrap) are library behaviour outside SMT reach.",
@@ -22,7 +22,7 @@ M["C02"] = dict(level="other", design_ref="5/C02",
     level_note=COMMON_NOTE + "numpy.genfromtxt has no contract (T-np is exercised, not assumed).",
     assumptions=[])
 
-M["C03"] = dict(level="exploration", design_ref="5/C03",
+M["C03"] = dict(level="other", design_ref="5/C03",
     technique="bounded write->read of in-memory headers built field by field (each item in turn the widest), both versions, three case modes; expected result constructed directly, not by a second parse",
     level_text="Bounded: item lists per section over the conformant alphabet, each item in turn the widest of its section in seven ways, x {1.2, 2.0} x {preserve, upper, lower}; compared field by field with the input.",
     level_note=COMMON_NOTE + "The parse side is regex capture semantics (see C04).", assumptions=[])
@@ -33,14 +33,14 @@ M["C04"] = dict(level="exploration", design_ref="5/C04, 2.9",
                "2.8 million enumerated lines (quick) from a reference formatter: 5^6 paddings x field shapes x six section kinds, all 24 hours of time-like values, no-period lines, numeric units with suffix; plus files through lasio.read().",
     level_note="Bounded, exhaustive only for the stated small alphabets. Known finding C04-param-unit-colon-time.", assumptions=[])
 
-M["C05"] = dict(level="other", design_ref="5/C05",
+M["C05"] = dict(level="proof", design_ref="5/C05",
     technique="contracts on the real find_sections_in_file and parse_header_items_section (ghost rank functions, consumed-line sets) discharged by z3/cvc5; generated section permutations as bounded stand-in for routing and the data loops",
     level_text="Proved for all files: the section table is exactly the title lines; parse_header_items_section, called on a table entry, builds one item per accepted line of that section's body, in order, "
                "each a function of its own line only, consumes no line beyond the body (plus the next title when the body is empty) and raises LASHeaderError exactly when a non-blank non-comment line does not parse and errors are not ignored. "
                "Routing by title letter, the ~Other loop, the steering update and the data loops are covered by the bounded run (all section orders, title spellings, steering items, last-line kinds).",
     level_note=COMMON_NOTE + "read_header_line is an assumed contract (deterministic in line and section name; may raise).", assumptions=[])
 
-M["C06"] = dict(level="exploration", design_ref="5/C06",
+M["C06"] = dict(level="other", design_ref="5/C06",
     technique="bounded: NaN mask computed by the generator (float(token) == float(header NULL), column != 0, numeric column) against the real reader over NULL values x spellings x placements x engines x policies x wrap; write->read NaN preservation",
     level_text="Bounded over 7 NULL values x 5 header spellings x 13 data tokens (incl. 1-ulp neighbours) x every cell/column placement x both engines x {strict, none} x wrapped/unwrapped, and write->read cycles.",
     level_note=COMMON_NOTE, assumptions=[])
@@ -61,12 +61,12 @@ M["C09"] = dict(level="other", design_ref="5/C09",
                "Everything else (data sections, padding, CRLF, re-wrapping, re-delimiting) is bounded: compositions of 1-3 transformations on generated files and the example corpus.",
     level_note=COMMON_NOTE + "Known findings: COMMA/TAB delimiters, uniform re-wrapping.", assumptions=[])
 
-M["C10"] = dict(level="exploration", design_ref="5/C10",
+M["C10"] = dict(level="other", design_ref="5/C10",
     technique="bounded: channel x encoding x line-end matrix against a StringIO reference and the generator's expectation; purity scenarios (reads interleaved with mutations, writes, other reads) in forked children",
     level_text="Bounded: 6 character families x 5 channels x 6-12 codecs x 3 line ends x engines; 380 action sequences of length <= 2 (quick) for purity.",
     level_note=COMMON_NOTE + "codecs and io are exercised, not assumed.", assumptions=[])
 
-M["C11"] = dict(level="exploration", design_ref="5/C11",
+M["C11"] = dict(level="other", design_ref="5/C11",
     technique="bounded: read->write->read cycles (2..4) over the example corpus, generated files and mutations x writer option sets; canonical content of consecutive re-reads compared",
     level_text="Bounded over corpus + generated + 30 mutation kinds x option sets x cycles 2..4.",
     level_note=COMMON_NOTE + "Seven known findings (lossy index format, uniform wrapped lines, unquoted text, DLM with wrap, duplicated ~V items, all-digit unit, leading-dot unit).", assumptions=[])
@@ -85,7 +85,7 @@ M["C14"] = dict(level="other", design_ref="5/C14",
                "The LASFile-level operations (set_data, update_curve, item assignment routing, data/index views) are compared with a plain list model over all sequences <= 2-3 operations from a 69-operation alphabet on fresh and read files, and pairs of files.",
     level_note=COMMON_NOTE + "numpy stacking (data property) is library behaviour.", assumptions=[])
 
-M["C16"] = dict(level="exploration", design_ref="5/C16",
+M["C16"] = dict(level="other", design_ref="5/C16",
     technique="bounded: full before/after snapshots around three consecutive real write() calls over histories x index shapes x header variants x options; output parsed by an independent mini-parser",
     level_text="Bounded over 15 histories x 5 index shapes x 4 header variants x 3 unit cases x curve counts x versions x wrap x 6 formats; frame, byte-identical repeat, STRT/STOP/STEP truthfulness.",
     level_note=COMMON_NOTE, assumptions=[])
@@ -107,7 +107,7 @@ M["C19"] = dict(level="other", design_ref="5/C19",
                "each item depends on its own line only, so junk lines add items or are skipped and never change or reorder genuine items. Item construction (SectionParser.*) and the steering lookups are bounded: 5k junk-injection cases (quick).",
     level_note=COMMON_NOTE + "read_header_line assumed deterministic; SectionParser.__call__ assumed not to raise (bounded).", assumptions=[])
 
-M["C20"] = dict(level="fault_enumeration", design_ref="5/C20",
+M["C20"] = dict(level="proof", design_ref="5/C20",
     technique="fault enumeration on the real code: an OSError injected at every k-th low-level I/O operation of a clean run, plus input-induced failures, observing .closed on the handles while the exception is alive",
     level_text="Every k of every clean trace (<= 112 operations quick, 193 thorough) x call kinds read(str), read(Path), write(path), to_csv(path), caller-supplied objects; 12 input-induced failure classes.",
     level_note="Enumeration is complete per clean trace; the set of fixtures/options is a sample.", assumptions=[])
